@@ -41,6 +41,8 @@ def pool(r):
         # first key with different values while the key SETS order the other way (value order: sorted items pairwise, then size)
         ('nan', ['flt', 'nan']), ('inf', ['flt', 'inf']), ('ninf', ['flt', '-inf']),
         ('oc', p.obj([['a', interp.vflt(2)]])), ('od', p.obj([['a', interp.vflt(1)], ['b', interp.vflt(0)]])),
+        # the same key set inserted in the same NON-alphabetical order, values pointing opposite ways (the order sorts the keys first)
+        ('oe', p.obj([['b', interp.vflt(1)], ['a', interp.vflt(2)]])), ('of', p.obj([['b', interp.vflt(2)], ['a', interp.vflt(1)]])),
     ]
     return vals
 
@@ -71,8 +73,13 @@ class TreeGen:
         if c < 0.84:
             n = r.choice([1, 2, 3, 3, 3])
             return 'if(' + ', '.join(self.tree(d - 1) for _ in range(n)) + ')'
-        if c < 0.93:
+        if c < 0.91:
             return f'lg2({self.tree(d - 1)}, {self.tree(d - 1)})'
+        if c < 0.94:
+            # a callee that is NOT defined: its arguments are still evaluated (and logged), left to right, before the lookup fails;
+            # and a callee that one of its own arguments (re)binds: the call uses the binding in force AFTER the arguments ran
+            return r.choice([f'nofn({self.leaf()}, {self.tree(d - 1)})',
+                             f"lg3(systemGlobalSet('lg3', lg2), {self.leaf()})"])
         return f'({self.tree(d - 1)})'
 
 
@@ -81,7 +88,7 @@ PRELUDE = ("function lg(t, v):\n    systemLog(t)\n    return v\nendfunction\n"
 
 
 def ref_eval_script(model, gspec):
-    g = {name: refinterp.LibFn(name) for name in ('systemLog', 'arrayNew', 'arrayLength')}
+    g = {name: refinterp.LibFn(name) for name in ('systemLog', 'arrayNew', 'arrayLength', 'systemGlobalSet')}
     pool_ = {}
     for k, v in gspec.items():
         g[k] = interp.py_of_spec(v, pool_)
